@@ -783,6 +783,16 @@ fn cast_oracle<W: Write>(o: &mut Out<W>, v: &Narsese) {
             }
         }
     }
+    // the same law on the wrapped value (its own blanket impl): Ok exactly when a sentence comes out
+    let want: Result<Narsese, Narsese> = match v {
+        Narsese::Term(..) => Err(v.clone()),
+        Narsese::Sentence(..) => Ok(v.clone()),
+        Narsese::Task(k) if k.get_budget().is_empty() => Ok(Narsese::Sentence(k.get_sentence().clone())),
+        Narsese::Task(..) => Err(v.clone()),
+    };
+    if v.clone().try_cast_to_sentence() != want {
+        bad(o, "value-level try_cast_to_sentence: not `Ok(sentence)` iff (sentence or task with empty budget), else `Err(unchanged)`");
+    }
 }
 
 /// C14 (lexical): `extract_terms` of every sub-term = the components it stores
@@ -949,6 +959,17 @@ fn lexvalues<W: Write>(r: &mut Rng, cfg: &TermCfg, n: usize, o: &mut Out<W>) {
                 match k.clone().try_cast_to_sentence() {
                     Ok(s) => if !k.budget.is_empty() || s != k.sentence { o.fail("C15", f, "lexical try_cast_to_sentence Ok wrongly", &ser_v) },
                     Err(k2) => if k.budget.is_empty() || k2 != *k { o.fail("C15", f, "lexical try_cast_to_sentence Err wrongly", &ser_v) },
+                }
+            }
+            {
+                let want: Result<lx::Narsese, lx::Narsese> = match &v {
+                    lx::Narsese::Term(..) => Err(v.clone()),
+                    lx::Narsese::Sentence(..) => Ok(v.clone()),
+                    lx::Narsese::Task(k) if k.budget.is_empty() => Ok(lx::Narsese::Sentence(k.sentence.clone())),
+                    lx::Narsese::Task(..) => Err(v.clone()),
+                };
+                if v.clone().try_cast_to_sentence() != want {
+                    o.fail("C15", f, "lexical value-level try_cast_to_sentence: not Ok(sentence) iff sentence / empty-budget task, else Err(unchanged)", &ser_v);
                 }
             }
             // C14: lexical category equals the category of the folded term
@@ -1408,6 +1429,10 @@ fn mutate(r: &mut Rng, t: &Term) -> Term {
     }
     // descend into one component
     let comps = t.get_components();
+    if comps.is_empty() {
+        // an empty compound (raw variants only): turn it into a different one
+        return Term::Negation(Box::new(t.clone()));
+    }
     let pick = r.below(comps.len());
     let target = comps[pick].clone();
     let new = mutate(r, &target);
@@ -1498,7 +1523,9 @@ fn pair_check<W: Write>(o: &mut Out<W>, a: &Term, b: &Term, how: &str) {
 fn pairs<W: Write>(r: &mut Rng, cfg: &TermCfg, n: usize, o: &mut Out<W>) {
     for _ in 0..n {
         let d = 1 + r.below(cfg.max_depth);
-        let a = gen::term(r, cfg, d);
+        // equality and hashing are properties of ALL values of the type: one pair in five is built from raw variants
+        let wild = r.chance(1, 5);
+        let a = if wild { gen::wild_term(r, d.min(3)) } else { gen::term(r, cfg, d) };
         term_hist(o, &a);
         let b = rebuild(r, &a);
         pair_check(o, &a, &b, "rebuilt");
@@ -1513,6 +1540,22 @@ fn pairs<W: Write>(r: &mut Rng, cfg: &TermCfg, n: usize, o: &mut Out<W>) {
         if let (Ok(Narsese::Term(p1)), Ok(Narsese::Term(p2))) = (ff.parse::<Narsese>(&text), ff.parse::<Narsese>(&text)) {
             pair_check(o, &p1, &p2, "two-parses");
             pair_check(o, &p1, &a, "parse-vs-built");
+            // the other way of building a value from the same description: lexical parse, then fold
+            if let Ok(lv) = lfmt(f).unwrap().parse(&text) {
+                if let Ok(Narsese::Term(p3)) = lv.try_fold_into(ff) {
+                    pair_check(o, &p1, &p3, "parse-vs-fold");
+                    pair_check(o, &p3, &a, "fold-vs-built");
+                    // "the same answer for values built from the same description": for a well-formed term the
+                    // constructor calls, the parse of its text and the fold of its lexical reading describe ONE term
+                    if !wild && !gen::is_k1(&a) {
+                        o.checked("C06");
+                        if !(p1 == a && p3 == a && p1 == p3) {
+                            o.fail("C06", f, "values built from the same description (constructors / parse of the text / lexical parse + fold) do not compare equal",
+                                &format!("text={} built={} parsed={} folded={}", ser::hs(&text), ser::term(&a, Mode::Raw), ser::term(&p1, Mode::Raw), ser::term(&p3, Mode::Raw)));
+                        }
+                    }
+                }
+            }
         }
         // images that are WRITTEN the same but stored differently: a component list with two or more placeholders can
         // be split at any of them; different index / stored components = different terms (C06), and whatever `==`
@@ -1756,7 +1799,7 @@ fn mutators<W: Write>(r: &mut Rng, cfg: &TermCfg, n: usize, o: &mut Out<W>) {
     for _ in 0..n {
         let d = r.below(3);
         // (the generator only puts placeholders inside images; as a term of its own it is an atom like the others)
-        let t = if r.chance(1, 12) { Term::Placeholder } else { gen::term(r, cfg, d) };
+        let t = if r.chance(1, 12) { Term::Placeholder } else if r.chance(1, 6) { gen::wild_term(r, d) } else { gen::term(r, cfg, d) };
         term_hist(o, &t);
         let raw = ser::term(&t, Mode::Raw);
         let arg = if r.chance(3, 4) { r.pick(&NAME_ARGS).to_string() } else { gen::name(r) };
@@ -2022,7 +2065,13 @@ fn small_terms(depth: usize) -> Vec<Term> {
 fn small<W: Write>(n: usize, o: &mut Out<W>) {
     // n = depth (1 or 2)
     let depth = n.clamp(1, 2);
-    let terms = small_terms(depth);
+    let mut terms = small_terms(depth);
+    // names that BEGIN WITH a keyword of another item class (Han / LaTeX tense words have no brackets, so they are
+    // ordinary identifier characters): as the whole term of a value they are read as names because the term is tried
+    // first. Top level only — inside other terms such names fall under the recorded finding K2.
+    for w in ["现在", "过去", "将来的事", "现在a", "过去9", "Leftarrow", "downarrow1"] {
+        terms.push(Term::new_word(w));
+    }
     let stamps = [Stamp::Eternal, Stamp::Past, Stamp::Present, Stamp::Future, Stamp::Fixed(-1)];
     let truths = [Truth::Empty, Truth::Single(1.0), Truth::Double(1.0, 0.9)];
     let budgets = [Budget::Empty, Budget::Single(0.5), Budget::Double(0.5, 0.75), Budget::Triple(0.5, 0.75, 0.4)];
@@ -2072,7 +2121,75 @@ fn small<W: Write>(n: usize, o: &mut Out<W>) {
 fn grammar_safe(text: &str) -> bool {
     text.chars().all(|c| (c as u32) <= 0x1f2ff)
 }
+/// C11, last sentence: "the ASCII keywords used are exactly those of the OpenNARS-compatible lexicon". The published
+/// grammar accepts `:\:` and `:/:` alike, so a keyword that drifts to another keyword OF THE SAME CLASS (formatter and
+/// parser together) is invisible to it; the theorem `enum_lexicon_is_opennars` notices, and this oracle supplies the
+/// concrete value: one smallest value per keyword, spelt by hand in the OpenNARS lexicon (layout blanks removed).
+fn lexicon_oracle<W: Write>(o: &mut Out<W>) {
+    let ff = efmt("ascii").unwrap();
+    let a = || Term::new_word("a");
+    let b = || Term::new_word("b");
+    let j = |st: Stamp, tr: Truth| Narsese::Sentence(Sentence::Judgement(a(), tr, st));
+    let table: Vec<(Narsese, &str)> = vec![
+        (Narsese::Term(a()), "a"),
+        (Narsese::Term(Term::new_variable_independent("x")), "$x"),
+        (Narsese::Term(Term::new_variable_dependent("y")), "#y"),
+        (Narsese::Term(Term::new_variable_query("z")), "?z"),
+        (Narsese::Term(Term::new_interval(7)), "+7"),
+        (Narsese::Term(Term::new_operator("op")), "^op"),
+        (Narsese::Term(Term::new_set_extension(vec![a()])), "{a}"),
+        (Narsese::Term(Term::new_set_intension(vec![a()])), "[a]"),
+        (Narsese::Term(Term::new_intersection_extension(vec![a()])), "(&,a)"),
+        (Narsese::Term(Term::new_intersection_intension(vec![a()])), "(|,a)"),
+        (Narsese::Term(Term::new_difference_extension(a(), b())), "(-,a,b)"),
+        (Narsese::Term(Term::new_difference_intension(a(), b())), "(~,a,b)"),
+        (Narsese::Term(Term::new_product(vec![a(), b()])), "(*,a,b)"),
+        (Narsese::Term(Term::new_image_extension(1, vec![a(), b()])), "(/,a,_,b)"),
+        (Narsese::Term(Term::new_image_intension(1, vec![a(), b()])), "(\\,a,_,b)"),
+        (Narsese::Term(Term::new_conjunction(vec![a()])), "(&&,a)"),
+        (Narsese::Term(Term::new_disjunction(vec![a()])), "(||,a)"),
+        (Narsese::Term(Term::new_negation(a())), "(--,a)"),
+        (Narsese::Term(Term::new_conjunction_sequential(vec![a(), b()])), "(&/,a,b)"),
+        (Narsese::Term(Term::new_conjunction_parallel(vec![a()])), "(&|,a)"),
+        (Narsese::Term(Term::new_inheritance(a(), b())), "<a-->b>"),
+        (Narsese::Term(Term::new_similarity(a(), a())), "<a<->a>"),
+        (Narsese::Term(Term::new_implication(a(), b())), "<a==>b>"),
+        (Narsese::Term(Term::new_equivalence(a(), a())), "<a<=>a>"),
+        (Narsese::Term(Term::new_implication_predictive(a(), b())), "<a=/>b>"),
+        (Narsese::Term(Term::new_implication_concurrent(a(), b())), "<a=|>b>"),
+        (Narsese::Term(Term::new_implication_retrospective(a(), b())), "<a=\\>b>"),
+        (Narsese::Term(Term::new_equivalence_predictive(a(), b())), "<a</>b>"),
+        (Narsese::Term(Term::new_equivalence_concurrent(a(), a())), "<a<|>a>"),
+        (j(Stamp::Eternal, Truth::Empty), "a."),
+        (Narsese::Sentence(Sentence::Goal(a(), Truth::Empty, Stamp::Eternal)), "a!"),
+        (Narsese::Sentence(Sentence::Question(a(), Stamp::Eternal)), "a?"),
+        (Narsese::Sentence(Sentence::Quest(a(), Stamp::Eternal)), "a@"),
+        (j(Stamp::Past, Truth::Empty), "a.:\\:"),
+        (j(Stamp::Present, Truth::Empty), "a.:|:"),
+        (j(Stamp::Future, Truth::Empty), "a.:/:"),
+        (j(Stamp::Fixed(-1), Truth::Empty), "a.:!-1:"),
+        (j(Stamp::Eternal, Truth::Single(1.0)), "a.%1%"),
+        (j(Stamp::Eternal, Truth::Double(1.0, 0.9)), "a.%1;0.9%"),
+        (Narsese::Task(Task(Sentence::Judgement(a(), Truth::Empty, Stamp::Eternal), Budget::Empty)), "$$a."),
+        (Narsese::Task(Task(Sentence::Judgement(a(), Truth::Empty, Stamp::Eternal), Budget::Single(0.5))), "$0.5$a."),
+        (Narsese::Task(Task(Sentence::Judgement(a(), Truth::Empty, Stamp::Eternal), Budget::Triple(0.5, 0.75, 0.4))), "$0.5;0.75;0.4$a."),
+    ];
+    for (v, want) in table {
+        let text = ff.format_narsese(&v);
+        let bare: String = text.chars().filter(|c| !c.is_whitespace()).collect();
+        o.checked("C11");
+        if bare != want {
+            o.fail(
+                "C11",
+                "ascii",
+                "the enum ASCII formatter does not spell this value with the keywords of the OpenNARS lexicon",
+                &format!("value={} text={} wanted(blanks removed)={}", ser::narsese(&v, Mode::Raw), ser::hs(&text), want),
+            );
+        }
+    }
+}
 fn grammar<W: Write>(r: &mut Rng, cfg: &TermCfg, n: usize, o: &mut Out<W>) {
+    lexicon_oracle(o);
     let ff = efmt("ascii").unwrap();
     let lf = lfmt("ascii").unwrap();
     let vocab = gen::vocab(lf, ff.atom.prefix_placeholder);
